@@ -373,7 +373,10 @@ def exec (s : RunSt) (it : Item) (a : Arg) : StepR :=
   | .orderDrainTail =>
     -- for (side, phase, body) in self._queue: self._deliver(...) ; then self._queue[:] = []
     -- an exception in a delivery leaves the queue as it was (the clear is never reached)
-    .cont s (c.orderQ.map (fun (ph, g) => (Item.receiveGot, { a with ph := ph, good := g })) ++ [(.orderClear, a)])
+    -- whether a queued body decrypts is only decided now, under the key just computed: the PAKE
+    -- event's `good` flag says whether the queued messages open under it (they were sealed by the
+    -- same peer, so they all do or none does)
+    .cont s (c.orderQ.map (fun (ph, _) => (Item.receiveGot, { a with ph := ph, good := a.good })) ++ [(.orderClear, a)])
   | .drainPending => .cont (emit s .drainAdds) []
   | .orderClear => .cont { s with ctl := { c with orderQ := [] } } []
   | .raise e => .fail s e
